@@ -27,7 +27,10 @@ def bfs(
     depth: int,
     max_transitions: int = 0,
     on_raise: Callable[[tuple, BaseException], None] = None,
+    check_revisits: bool = True,
 ) -> Stats:
+    """check_revisits=False skips the oracle on transitions into an already seen canonical state -- only sound when
+    the canonical key determines everything the oracle observes."""
     st = Stats()
     s0 = build(())
     k0 = canon(s0)  # canonical key first: the oracle may read (and thereby fill caches of) the state object
@@ -50,7 +53,8 @@ def bfs(
             st.transitions += 1
             k = canon(s)
             nxt = list(enabled(h2, s)) if (k not in seen and len(h2) < depth) else None
-            check(h2, s)
+            if check_revisits or k not in seen:
+                check(h2, s)
             if k not in seen:
                 seen.add(k)
                 st.max_depth = max(st.max_depth, len(h2))
